@@ -136,7 +136,8 @@ def evaluate(ctx, cases):
             ctx.count("entry-points")
             qeval.compare_entry_points(ctx, c["text"], compiled, doc, None, [[n["path"], n["val"]] for n in impl],
                                        "jsonpath.findall / jsonpath.finditer / compile().findall must agree with compile().finditer", inp,
-                                       only=("compiled.findall:values", "env.finditer", "env.findall:values", "compiled.query", "env.match:first"))
+                                       only=("compiled.findall:values", "env.finditer", "env.findall:values", "compiled.query", "env.match:first",
+                                             "compiled.finditer, advanced alternately with another evaluation of the same compiled query"))
         if m["std"]:
             want = [(n["path"], n["val"]) for n in m["spec"]]
             got = [(n["path"], n["val"]) for n in impl]
